@@ -25,7 +25,7 @@ RULE = ("2 of 3 runs: clock sweep - one bundled tariff x one of the 14 calendar-
         "distinct = (tariff, calendar type, period, start class, day-of-year bucket)")
 PROBES = ["lookups", "near_breakpoint", "season_edge_crossed", "weekday_class_midnight", "year_wrap_crossed", "leap_day",
           "world_runs", "get_prices_start0_later", "get_prices_explicit_start", "demand_charge_query", "energy_cost_checked",
-          "winter_pge", "aware_two_zone_lookup", "explicit_tariff_cost_checked", "price_vector_scribbled"]
+          "winter_pge", "aware_two_zone_lookup", "explicit_tariff_cost_checked", "price_vector_scribbled", "vector_longer_than_a_year"]
 FAULT_DIMENSION = "none - the simulated clock is swept across the calendar (inputs, not faults)"
 REAL_VS_STUB = "real: TimeOfUseTariff + bundled JSON files, Interface.get_prices/get_demand_charge, analysis.energy_cost/demand_charge, Simulator; reference reads the JSON files itself"
 ASSUMPTIONS = ["prices compared exactly (they are copied from the file, never computed)", "costs within 1e-9 relative"]
@@ -74,6 +74,10 @@ def gen(rs, tier):
     year = r.choice(YEARS)
     period = r.choice([1, 5, 15, 15, 60, 60])
     n = r.randint(200, 3000)
+    if sub(rs, "long_vector").random() < 0.04:
+        # one price vector covering more than a year (the same month/day occurs twice, with different weekday classes)
+        period = r.choice([60, 60, 120, 180])
+        n = int((366 + r.randint(5, 150)) * 1440 / period)
     return {"seed": rs, "tariff": name, "year": year, "period": period, "n": n, "start_mode": r.choice(["random", "breakpoint", "season_edge", "midnight", "new_year", "leap_day"]),
             "pick": r.randrange(10 ** 6), "second": r.choice([0, 0, 0, 30, 59])}
 
@@ -208,6 +212,8 @@ def check(sc):
             if out.viol:
                 break
     out.probe("near_breakpoint", near)
+    if n * period > 366 * 1440:
+        out.probe("vector_longer_than_a_year")
     if sc["tariff"].startswith("pge") and (start.month >= 11 or start.month <= 4):
         out.probe("winter_pge")
     out.nontrivial = near > 0
